@@ -143,7 +143,9 @@ def run : Runner
     let h ← bytes? h
     if h.length != 20 then none
     let lower := pfx.all fun c => !(c ≥ 65 && c ≤ 90)
-    pure { model := if lower then "1 1 1 1 1" else "1 1 E", prop := "spec" }
+    -- the string itself is the model's encoding with the custom prefix (type 0 = P2PKH, 1 = P2SH)
+    let str := CashAddr.checkEncodeCashAddress h pfx (if _kind == "pkh" then 0 else 1)
+    pure { model := s!"{Bytes.tok str} {if lower then "1 1 1 1 1" else "1 1 E"}", prop := "spec" }
   | "pk2pkh", [_, net, ser], _ => do
     let net ← nets[(← nat? net)]?
     let ser ← bytes? ser
